@@ -1301,6 +1301,18 @@ pub (in crate::llir::lower) fn assign_registers(
         }
     }
 
+    #[cfg(truth_verif)]
+    crate::verif_hooks::trace::emit(|| {
+        let regs = |v: &Vec<RegId>| v.iter().map(|r| r.0).collect::<Vec<_>>();
+        serde_json::json!({
+            "ev": "pool",
+            "int": regs(&remaining_scratch_regs_by_ty[ScalarType::Int]),
+            "float": regs(&remaining_scratch_regs_by_ty[ScalarType::Float]),
+            "explicit": explicitly_used_regs.keys().map(|r| r.0).collect::<Vec<_>>(),
+            "params": implicitly_used_regs.keys().map(|r| r.0).collect::<Vec<_>>(),
+        })
+    });
+
     // assign scratch registers to all variables defined with RegAlloc
     for stmt in code {
         match &mut stmt.value {
@@ -1309,9 +1321,19 @@ pub (in crate::llir::lower) fn assign_registers(
 
                 let required_ty = ctx.defs.var_inherent_ty(def_id).as_known_ty().expect("(bug!) untyped in stackless lowerer");
 
+                #[cfg(truth_verif)]
+                if remaining_scratch_regs_by_ty[required_ty].is_empty() {
+                    crate::verif_hooks::trace::emit(|| serde_json::json!({
+                        "ev": "too_complex", "def": def_id.0.get(), "ty": format!("{:?}", required_ty),
+                    }));
+                }
                 let reg = remaining_scratch_regs_by_ty[required_ty].pop().ok_or_else(|| {
                     script_too_complex(stmt, hooks, required_ty, &explicitly_used_regs, &implicitly_used_regs, &ctx)
                 })?;
+                #[cfg(truth_verif)]
+                crate::verif_hooks::trace::emit(|| serde_json::json!({
+                    "ev": "alloc", "def": def_id.0.get(), "ty": format!("{:?}", required_ty), "reg": reg.0,
+                }));
 
                 implicitly_used_regs.insert(reg, (required_ty, stmt.span));
                 assert!(local_regs.insert(def_id, reg).is_none());
@@ -1331,12 +1353,18 @@ pub (in crate::llir::lower) fn assign_registers(
                 assert!(implicitly_used_regs.remove(&reg).is_some());
 
                 remaining_scratch_regs_by_ty[inherent_ty].push(reg);
+                #[cfg(truth_verif)]
+                crate::verif_hooks::trace::emit(|| serde_json::json!({
+                    "ev": "free", "def": def_id.0.get(), "ty": format!("{:?}", inherent_ty), "reg": reg.0,
+                }));
             },
             LowerStmt::Instr(instr) => {
                 if let Some(how_bad) = hooks.instr_disables_scratch_regs(instr.opcode) {
                     match how_bad {
                         HowBadIsIt::OhItsJustThisOneFunction => {
                             has_anti_scratch_ins.get_or_insert(stmt.span);
+                            #[cfg(truth_verif)]
+                            crate::verif_hooks::trace::emit(|| serde_json::json!({"ev": "anti_scratch", "opcode": instr.opcode}));
                         },
                         HowBadIsIt::ItsWaterElf => {
                             global_scratch_results.has_anti_scratch_ins.get_or_insert(stmt.span);
@@ -1361,6 +1389,8 @@ pub (in crate::llir::lower) fn assign_registers(
 
     if let Some(anti_span) = has_anti_scratch_ins {
         if let Some(used_span) = has_used_scratch {
+            #[cfg(truth_verif)]
+            crate::verif_hooks::trace::emit(|| serde_json::json!({"ev": "anti_scratch_error"}));
             return Err(ctx.emitter.emit(error!(
                 message("scratch registers are disabled in this script"),
                 primary(used_span, "this fancy expression requires a scratch register"),
